@@ -22,7 +22,8 @@ def bounded(tier):
     b = Bounded("all ordered tree shapes with <= %d nodes; pairs (t, t') with t' an independently built copy of t "
                 "changed in exactly one field of exactly one node (8 fields), or with one leaf added/removed; both argument "
                 "orders, with private namespace maps and with maps shared between parent and child; "
-                "compared with an independent structural-equality oracle" % (4 if tier == "quick" else 5))
+                "compared with an independent structural-equality oracle; plus copy-then-edit: every single edit (9 kinds) of every node of a deep copy "
+                "or of its original must make them compare unequal, in both argument orders" % (4 if tier == "quick" else 5))
     b.rule = "a case is a (shape, node position, mutated field, argument order) tuple; non-trivial = the trees differ or have >1 node"
     maxn = 4 if tier == "quick" else 5
     fields = ["name", "content", "tail", "prefix", "attributes", "nsmap", "extras", "attr-key"]
@@ -91,6 +92,38 @@ def bounded(tier):
                         b.failures.append(Failure(key, "Node.is_equal(%s) answered %s, structural equality is %s" % (order, got, exp),
                                                   {"a": nat.describe(x), "b": nat.describe(y), "mutation": what, "at": list(p) if p else None},
                                                   str(got), str(exp)))
+    # a deep copy compares equal to its original until one of them is edited anywhere
+    def edits():
+        return {"name": lambda x: setattr(x, "name", x.name + "~"), "content": lambda x: setattr(x, "content", "edited"),
+                "tail": lambda x: setattr(x, "tail", "edited"), "prefix": lambda x: setattr(x, "prefix", "pp"),
+                "attribute": lambda x: x.add_attribute("edited", "1"), "extras-add": lambda x: x.add_extras("edited", "1"),
+                "extras-change": lambda x: x.extras.__setitem__("x:y", "edited"), "namespace": lambda x: x.add_namespace("edited", "urn:e"),
+                "child": lambda x: x.add_child(Node("added"))}
+
+    def walk(t):
+        out = [t]
+        for c in t.children:
+            out.extend(walk(c))
+        return out
+    for n in range(1, min(maxn, 4) + 1):
+        for shape in nat.shapes(n):
+            for pos in range(n):
+                for ename in edits():
+                    for side in ("copy", "original"):
+                        nat.reset_store()
+                        t = nat.build(shape, base)
+                        cp = t.copy()
+                        if not (Node.is_equal(t, cp) and Node.is_equal(cp, t)):
+                            b.failures.append(Failure("is_equal:copy-not-equal", "a fresh deep copy does not compare equal to its original", {"a": nat.describe(t)}, "False", "True"))
+                            break
+                        target = walk(cp if side == "copy" else t)[pos]
+                        edits()[ename](target)
+                        got = (Node.is_equal(t, cp), Node.is_equal(cp, t))
+                        b.note((shape, "copy-then-edit", pos, ename, side), nontrivial=True, sample={"shape": str(shape), "edit": ename, "at": pos, "side": side})
+                        if got != (False, False):
+                            b.failures.append(Failure("is_equal:copy-still-equal-after-edit", f"after the edit '{ename}' on node {pos} of the {side}, is_equal(original, copy) / "
+                                                      f"(copy, original) answer {got}: copy and original are not independent, or the comparison misses the field",
+                                                      {"a": nat.describe(t), "edit": ename, "at": pos, "side": side}, str(got), "(False, False)"))
     return b
 
 
